@@ -46,7 +46,7 @@ RULE = ("corpus; exhaustive interleavings of 2 iterators (domain sizes 1-3, up t
 
 
 def budget(tier: str) -> int:
-    return 300 if tier == "quick" else 6000
+    return 800 if tier == "quick" else 12000
 
 
 # ---------------------------------------------------------------------------------------------- generation
